@@ -1,6 +1,7 @@
 #!/bin/bash
-# usage: ./seedcheck.sh <prop> <worktree> <name>   — confirm a seeded change (demo fails with / passes without),
-# run the property's quick check against it in /repo, store it under seeded/<name>/ and clean up.
+# usage: ./seedcheck.sh <prop> <worktree> <name>   — confirm a seeded change (demo fails with / passes without,
+# existing tests pass with it), run the property's quick check against the patched worktree (never /repo),
+# store it under seeded/<name>/.
 prop="$1"; wt="$2"; name="${3:-$1}"
 export GOFLAGS=-mod=mod GOPROXY=off
 seed="$wt/_seed"
@@ -15,5 +16,5 @@ echo "== demo WITH change (must fail)"; (cd "$wt" && go test -count=1 "./$dd/" 2
 rm -f "$dest"
 echo "== existing tests WITH change (must pass)"; (cd "$wt" && go test -count=1 $(git -C "$wt" diff --name-only | xargs -n1 dirname | sort -u | sed 's#^#./#') 2>&1 | tail -4)
 echo "== my check against the change"
-git -C /repo apply "$seed/patch.diff" && (cd /verif && ./check "$prop" quick 2>&1 | grep -E "VIOLATION|KNOWN|INCONCLUSIVE|PASS|exit=" | head -5); git -C /repo checkout -- . ; rm -rf /verif/replay
+(cd /verif && bin/gosmt check -prop "$prop" -tier quick -verif /verif -repo "$wt" 2>&1 | grep -E "VIOLATION|KNOWN|INCONCLUSIVE|PASS|exit=" | head -5); git -C /verif checkout -q -- evidence/$prop.json 2>/dev/null; rm -rf /verif/replay
 mkdir -p /verif/seeded/$name && cp "$seed/patch.diff" "$seed/demo_test.go" "$seed/meta.json" /verif/seeded/$name/
